@@ -64,6 +64,14 @@ func main() {
 		cfg := &sym.CheckConfig{Property: *prop, Tier: *tier, Seed: seed, RepoDir: "/repo", VerifDir: "/verif", Workers: *workers, OnlyH: *only, MaxSec: *maxSec, NoReplay: *noReplay}
 		out := sym.RunCheck(cfg)
 		os.Exit(out.ExitCode)
+	case "refcheck":
+		// native validation of the reference model against the corpus
+		cfg := &sym.CheckConfig{RepoDir: "/repo", VerifDir: "/verif", Tier: "quick"}
+		out, err := sym.NativeTest(cfg, "^TestVerifRefjpCorpus$", 120)
+		fmt.Println(out)
+		if err != nil {
+			os.Exit(1)
+		}
 	case "replay":
 		cfg := &sym.CheckConfig{RepoDir: "/repo", VerifDir: "/verif", Tier: "quick"}
 		res, logs, err := sym.NativeReplay(cfg, os.Args[2:], false, 60)
